@@ -16,7 +16,7 @@ def run(pid, tier, replay=None):
     ]
     # (coefficient set, input set, highest order, history length): thorough = wider sets at order <= 2, and order 3 over the quick sets
     runs = [("CoefsQ", "InputsQ", 2, 4, "Init"), ("CoefsQ", "InputsBig", 17, 7 if q else 10, "InitBig")] if q else \
-           [("CoefsT", "InputsT", 2, 4, "Init"), ("CoefsQ", "InputsQ", 3, 5, "Init"), ("CoefsQ", "InputsBig", 17, 10, "InitBig")]
+           [("CoefsT", "InputsT", 2, 4, "Init"), ("CoefsQ", "InputsQ", 3, 5, "Init"), ("CoefsQ", "InputsBig", 17, 8, "InitBig")]
     out = sc.path("filt.out")
     open(out, "w").close()
 
